@@ -80,4 +80,5 @@ def main() -> None:
                                 net.fail("strict-grouped-gate", f"{nm}.parse_jelly_grouped strict={strict} logical={eff}: {'accepted' if k2=='ok' else 'rejected'}", inp)
     net.finish("bounded", "4x8 type pairs; name-table minimum; reader maximum; 3 stream classes x 8 logical types x framing x ns x random sizes/names/flags written and read back; strict gates of both integrations",
                "each case = one configuration point; non-trivial = accepted by the writer")
-main()
+if __name__ == "__main__":
+    main()
